@@ -749,7 +749,7 @@ func runCloseWallet(c CloseCase, cs *kit.CaseStats) error {
 
 var c18CloseProp = kit.Prop[CloseCase]{
 	ID:   "C18",
-	Rule: "shutdown: syncer.Syncer (0..4 RPC handlers held inside the ChainManager, 0..6 inbound handshakes and 0..4 explicit Connects racing the Close, sync and peer loops ticking every 2-3 ms), rhp4.Server (0..4 RPCSettings handlers held inside Settings, 0..6 idle streams) and wallet.SingleAddressWallet (background rebroadcast held inside its store, reorgs racing the Close); 1..3 concurrent Close calls issued 0..2 ms after the work is in place, held work released up to 0.5 ms before / 3 ms after. Oracle: no Close returns while held work is inside the component (or a handler goroutine exists); every Close returns within 30 s of the release (dump of goroutines parked inside the component otherwise); Run/Serve return; afterwards Connect fails with ErrClosed, broadcasts fail, new connections/streams are refused (host-shutting-down for RHP4), old connections are dead, the wallet starts no further rebroadcast; no goroutine of the component is left. Non-trivial = Close issued while >= 1 work item is held.",
+	Rule: "shutdown: syncer.Syncer (0..4 RPC handlers held inside the ChainManager, 0..6 inbound handshakes and 0..4 explicit Connects racing the Close, sync and peer loops ticking every 2-3 ms), rhp4.Server (0..4 RPCSettings handlers held inside Settings, 0..6 idle streams) wallet.SingleAddressWallet (background rebroadcast held inside its store, reorgs racing the Close), a syncer in the middle of a parallel download, an rhp4.Server with WithRPCTimeout(400 ms) whose streams sent 0..40 bytes and stay silent and open, and a syncer with 1..4 application Connect(context.Background(), addr) calls (plus, with Run active, the peer loop's own connect) whose dials are pending in a context-bound WithDialer dialer - those dials must be cancelled by Close and every Connect must return an error; 1..3 concurrent Close calls issued 0..2 ms after the work is in place, held work released up to 0.5 ms before / 3 ms after. Oracle: no Close returns while held work is inside the component (or a handler goroutine exists); every Close returns within 30 s of the release (dump of goroutines parked inside the component otherwise); Run/Serve return; afterwards Connect fails with ErrClosed, broadcasts fail, new connections/streams are refused (host-shutting-down for RHP4), old connections are dead, the wallet starts no further rebroadcast; no goroutine of the component is left. Non-trivial = Close issued while >= 1 work item is held.",
 	Assumptions: []string{
 		"work held by the harness is always released (a Close that waits for it is correct behaviour); the watchdog starts counting once it is released",
 		"the wallet has no API that submits background work, so 'rejected afterwards' is checked as 'no further rebroadcast runs after Close'",
